@@ -67,6 +67,28 @@ NOTES.update({
  "C19-3": ("caught", ""),
  "C20-3": ("caught", ""),
 })
+NOTES.update({
+ "C01-4": ("missed at first", "operands beyond every plausible size threshold (more than 1024 entries, sides 17..129, inner dimension 1500, density 80 %) on every storage path"),
+ "C02-4": ("caught by thorough only", "size ladder (more than 64 entries, sides 9..70) in the quick tier, in all memory layouts"),
+ "C03-4": ("caught by thorough only", "trajectory shapes with a dimension above 16 in the quick tier"),
+ "C04-4": ("missed at first (n <= 24 everywhere)", "systems with n = 34, 36 (66 thorough): weighted cyclic shift with b = e_1 (no progress before cycle n) and generic"),
+ "C05-4": ("missed at first", "size ladder 25x25 .. 40x32 (65 thorough) with every truncation rank"),
+ "C06-4": ("caught", "size ladder added anyway"),
+ "C07-4": ("caught by thorough only", "size ladder 16..40 (square, tall, wide; ties force late interchanges) in the quick tier"),
+ "C08-4": ("missed at first", "size ladder n = 9..33 (66 thorough)"),
+ "C09-4": ("caught by thorough only", "size ladder n = 9..34 in the quick tier (n, n-1, n-2 multiples of 16)"),
+ "C10-4": ("caught", "size ladder n = 13, 17 added anyway"),
+ "C11-4": ("missed at first", "determinants for n = 9..33 (multiples of 16 and neighbours), rank / null space up to 33 x 20"),
+ "C12-4": ("missed at first", "size ladder 40x24 .. 70x26 (130x6 thorough), exact-rank and generic, even and odd pass counts"),
+ "C13-4": ("caught", "size ladder (more than 8 / 16 columns) added anyway"),
+ "C14-4": ("caught (by the long histories with raising calls added just before this round was evaluated)", ""),
+ "C15-4": ("caught by thorough only", "size ladder 17..40 with structured (Hermitian, negative definite) classes in the quick tier"),
+ "C16-4": ("caught by thorough only", "size ladder k, n = 9..33 in the quick tier"),
+ "C17-4": ("missed at first", "images with sides above 32 that are not 5-smooth (33, 34, 35, 37, 41) and aspect ratios above 3"),
+ "C18-4": ("caught", "larger tensors added anyway"),
+ "C19-4": ("caught", "size ladder n = 12..33 at gap ratio 0.8 added anyway"),
+ "C20-4": ("missed at first", "LARGE (n = 17..130) arguments that violate A = A^H in one entry at even / odd / first / last positions, for every Hermitian-only entry point"),
+})
 for d in sorted(glob.glob(os.path.join(HERE, "seeded", "C*"))):
     pid = os.path.basename(d)[:3]
     agent = {}
